@@ -35,6 +35,11 @@ theorem size_bounds_output (F : FloatOps α) (d : Nat) (v : Value α) (n : Nat) 
 theorem saveVariable_no_crash (F : FloatOps α) (v : Value α) : saveVariable F v ≠ SaveOut.crash :=
   NV.C16.saveVariable_no_crash F v
 
+/-- what the efun save_variable returns is the text `save_svalue` writes and never longer than MaxStringLength (the size
+test `theSize - 1 > MaxStringLength` stands in front of the allocation — regenerated site `save_variable-limit`) -/
+theorem saveVariableEfun_ok (F : FloatOps α) (v : Value α) (t : List Nat) (h : saveVariableEfun F v = SaveEfunOut.ok t) :
+    t = save F v ∧ t.length ≤ maxStringLength := NV.C16.saveVariableEfun_ok F v t h
+
 /-- ... nor does any variable buffer of `save_object` -/
 theorem saveObject_no_crash (F : FloatOps α) (vars : List (Var α)) : saveObjectCrash F vars = false :=
   NV.C16.saveObject_no_crash F vars
